@@ -6,6 +6,7 @@ import (
 	"errors"
 	"io"
 	"os"
+	"runtime"
 	"time"
 )
 
@@ -60,6 +61,14 @@ func vNativeServe(data []byte, want int, label string) {
 	if err != nil {
 		panic(err)
 	}
+	// a file opened earlier in the session: must be closed when Serve returns
+	of, err := os.CreateTemp(dir, "open")
+	if err != nil {
+		panic(err)
+	}
+	svr.openFiles["1"] = of
+	svr.handleCount = 1
+	g0 := runtime.NumGoroutine()
 	done := make(chan struct{})
 	go func() { svr.Serve(); close(done) }()
 	select {
@@ -79,6 +88,11 @@ func vNativeServe(data []byte, want int, label string) {
 		n++
 	}
 	vAssert(n <= want, label+": a malformed frame (or anything after it) is never dispatched")
+	vAssert(of.Close() != nil, "open file swept exactly once")
+	for i := 0; i < 50 && runtime.NumGoroutine() > g0; i++ {
+		time.Sleep(10 * time.Millisecond)
+	}
+	vAssert(runtime.NumGoroutine() <= g0, label+": no goroutine is left behind")
 }
 
 //verif:redirect (*github.com/pkg/sftp.packetManager).workerChan vStubWorkerChan
